@@ -314,7 +314,7 @@ def _post_shapes(cx, spec):
     import random
     from . import rng as rng_mod
     p = cx.p
-    if not any(p.get(k, 0) > 0 for k in ("p_empty_routing", "p_routing_shorthand", "p_keyword_update_field", "p_struct_fields", "p_mixin_mixed_body")):
+    if not any(p.get(k, 0) > 0 for k in ("p_empty_routing", "p_routing_shorthand", "p_keyword_update_field", "p_struct_fields", "p_mixin_mixed_body", "p_stdlib_file_name")):
         return
     prng = random.Random(int(rng_mod.digest(spec)[:16], 16))
     methods = [(fs, s, m) for fs, s, m in all_methods(spec)]
@@ -358,6 +358,12 @@ def _post_shapes(cx, spec):
             m, req = prng.choice(cands)
             req["fields"].append({"name": "rows", "number": 15, "type": "message", "type_name": ".google.protobuf.Struct", "repeated": True})
             m["signatures"][0] = m["signatures"][0] + ",rows"
+    if prng.random() < p.get("p_stdlib_file_name", 0):
+        # the API's second proto file is named like a standard-library module the emitted code imports
+        # (google/logging/v2/logging.proto is a published example)
+        f = next((f for f in spec["files"] if f.get("role") == "common"), None)
+        if f is not None:
+            f["name"] = f["name"].rsplit("/", 1)[0] + "/" + prng.choice(p.get("stdlib_file_names") or ["logging"]) + ".proto"
     if prng.random() < p.get("p_mixin_mixed_body", 0):
         # a mixin http rule whose bindings do not agree on `body` (one carries "*", another none: its fields travel in the query)
         rules = [r for r in ((spec.get("service_yaml") or {}).get("http") or {}).get("rules", [])
